@@ -637,3 +637,11 @@ Definition same_structure (m m' : pmodel) : bool :=
   && setp_eqb (flat_map rdist_names (pm_rvs m)) (flat_map rdist_names (pm_rvs m'))
   && forallb (fun p => memp (fst (fst p)) (flat_map rdist_params (pm_rvs m))
                        || memp (fst (fst p)) (map (fun q => fst (fst q)) (pm_params m'))) (pm_params m).
+
+(* (name, symbols of its variance) of every random variable of a distribution *)
+Definition rv_vars (d : rdist) : list (id * list id) :=
+  match d with
+  | DNormal n v => [(n, v)]
+  | DJoint ns m => map (fun ix => (snd ix, diag_syms m (fst ix))) (enum_from 0 ns)
+  end.
+
